@@ -74,6 +74,13 @@ class FullFrontend(ConstrainedFrontend):
     #
 
     def _get_solver(self):
+        if self._solver_backend.reuse_z3_solver:
+            # the Z3 solver is shared by all frontends of this thread, and whoever used it last left its own
+            # constraints behind: reset it (solver() does) and re-add ours
+            self._tls.solver = self._solver_backend.solver(timeout=self.timeout, max_memory=self.max_memory)
+            self._add_constraints()
+            return self._tls.solver
+
         if getattr(self._tls, "solver", None) is None:
             self._tls.solver = self._solver_backend.solver(timeout=self.timeout, max_memory=self.max_memory)
             self._add_constraints()
@@ -88,11 +95,7 @@ class FullFrontend(ConstrainedFrontend):
         if len(self._to_add) > 0:
             self._add_constraints()
 
-        solver = self._tls.solver
-        if self._solver_backend.reuse_z3_solver:
-            # we must re-add all constraints
-            self._add_constraints()
-        return solver
+        return self._tls.solver
 
     def _add_constraints(self):
         self._solver_backend.add(self._tls.solver, self.constraints, track=self._track)
